@@ -46,14 +46,15 @@ THEOREMS += ["OdxVerif.Codec." + t for t in [
     'C01_roundtrip_nested_consumes', 'C01_roundtrip_nested_whole', 'C01_roundtrip_nested2', 'C01_roundtrip_nested2_whole',
     'C01_roundtrip_bytesize', 'Described2.ok', 'DescribedTop.ok', 'mcomps_roundtrip_msg_cur', 'roundtrip_msg_core',
     'dcomp_roundtrip_msg_cur', 'comps_roundtrip_msg_cur', 'comps_roundtrip_msg_pre_cur',
-    'Good.sized', 'bsPad_frame', 'DComp.withByteSize_ok', 'DComp.structBS_ok', 'DComp.structOM_ok',
-    'MComps.encode_eq', 'DComp.structM_encode_eq', 'DComp.structM_ok', 'Comp.ofMItem_ok', 'Comp.ofMinMaxMid_ok',
+    'Good.sized', 'bsPad_frame', 'DComp.withByteSize_okM', 'DComp.withByteSize_ok', 'DComp.structBS_ok', 'DComp.structOM_okM',
+    'DComp.structOM_ok',
+    'MComps.encode_eq', 'DComp.structM_encode_eq', 'DComp.structM_okM', 'DComp.structM_ok', 'Comp.ofMItem_ok', 'Comp.ofMinMaxMid_ok',
     'Comp.ofMinMaxFull_ok', 'Comp.ofMinMaxLast_ok', 'Comp.ofLeading_ok', 'ModelInv.top',
     'encodeParam_keeps_trig', 'kt_encode_all', 'encodeParam_keeps_usedCovers', 'ku_encode_all',
     'Good.rawAt', 'Comp.matchingReq_ok',
     'encodeDop_std_cursorBit', 'Good.peek', 'emProbe_miss', 'emProbe_hit', 'decodeUntilMarkerC_eq', 'DComp.endMarkerEop_ok',
     'DComp.endMarkerMid_ok', 'Comp.ofValueM_ok', 'EmLayout.miss_of_first', 'EmLayout.miss_withByteSize',
-    'ex2_described', 'ex2St_described', 'ex2Tail_described']]
+    'ex2_described', 'ex2St_described', 'ex2Tail_described', 'ex3_described']]
 RULE = ("well-formed descriptions (envelope wf of DESIGN §6/C01, by construction in harness/odxgen/gen.py) x canonical values "
         "(odxgen/values.py): corpus of past failures; every BYTE-SIZE structure size x offset; every (integer type, encoding, byte order, "
         "bit length, bit position) standard-length DOP with boundary values; floats/strings/byte fields x encodings x byte orders; random "
